@@ -227,6 +227,30 @@ Proof.
   destruct (szf =? 0); [reflexivity | apply IH].
 Qed.
 
+Lemma a_available_spec (a : astate) i : a_available a i = true ->
+  (N.to_nat i <= length a)%nat /\
+  (nth_error a (N.to_nat i) = None \/ nth_error a (N.to_nat i) = Some None).
+Proof.
+  unfold a_available. intros H. apply orb_true_iff in H. destruct H as [H|H].
+  - assert (E : N.to_nat i = length a) by lia. split; [rewrite E; apply Nat.le_refl|].
+    left. apply nth_error_None. rewrite E. apply Nat.le_refl.
+  - destruct (nth_error a (N.to_nat i)) as [[e|]|] eqn:E; try discriminate.
+    split; [|right; reflexivity].
+    apply Nat.lt_le_incl. apply (nth_error_lt _ _ _ E).
+Qed.
+
+(** The slot chosen by [PInsertAt]. *)
+Lemma a_insert_at_slot_spec (a : astate) i0 :
+  let t := if a_available a i0 then i0 else a_first_free a 0 in
+  (N.to_nat t <= length a)%nat /\
+  (nth_error a (N.to_nat t) = None \/ nth_error a (N.to_nat t) = Some None).
+Proof.
+  cbv zeta. destruct (a_available a i0) eqn:E.
+  - apply a_available_spec. exact E.
+  - destruct (a_first_free_spec a 0) as (n & H1 & H2 & H3). rewrite H1.
+    replace (N.to_nat (0 + N.of_nat n)) with n by lia. split; assumption.
+Qed.
+
 (** * [a_used] *)
 
 Definition aweight (e : aentry) : N := match e with Some (b, _) => blen b | None => 0 end.
@@ -256,6 +280,7 @@ Qed.
 Lemma a_frame : forall a o j,
   j <> match o with
        | PInsert _ => a_first_free a 0
+       | PInsertAt i _ => if a_available a i then i else a_first_free a 0
        | PUpdate i _ _ | PMark i | PApply i | PRollback i | PGet i => i
        end ->
   a_at (fst (astep a o)) j = a_at a j
@@ -268,11 +293,15 @@ Proof.
   assert (K' : forall i x e, j <> i -> a_at a i = Some e ->
               a_at (set_nth a (N.to_nat i) x) j = a_at a j).
   { intros i x e Hne He. apply K; [assumption|]. apply nth_error_lt in He. lia. }
-  destruct o as [b|i b r|i|i|i|i]; cbn [astep].
+  destruct o as [b|i b|i b r|i|i|i|i]; cbn [astep].
   - destruct (blen b =? 0); [reflexivity|].
     destruct (a_free a <? blen b + size_tuple); [reflexivity|].
     cbn [fst]. apply K; [assumption|].
     destruct (a_first_free_spec a 0) as (n & H1 & H2 & _). rewrite H1. lia.
+  - destruct (blen b =? 0); [reflexivity|].
+    destruct (a_free a <? blen b + size_tuple); [reflexivity|].
+    cbn [fst]. apply K; [assumption|].
+    exact (proj1 (a_insert_at_slot_spec a i)).
   - destruct (blen b =? 0); [reflexivity|].
     destruct (a_at a i) as [[[old [|]]|]|] eqn:E; try reflexivity.
     destruct (a_free a + blen old <? blen b); [reflexivity|].
@@ -318,6 +347,22 @@ Proof.
   - intros i. cbn [astep].
     destruct (a_at a i) as [[[old [|]]|]|] eqn:E; try discriminate.
     cbn [snd]. intros H. inversion H. reflexivity.
+Qed.
+
+Lemma a_read_back_at : forall a b i0 i, snd (astep a (PInsertAt i0 b)) = OInserted i ->
+  snd (astep (fst (astep a (PInsertAt i0 b))) (PGet i)) = OTuple b /\
+  (a_at a i = None \/ a_at a i = Some None) /\
+  (a_available a i0 = true -> i = i0).
+Proof.
+  intros a b i0 i. cbn [astep].
+  destruct (blen b =? 0); [discriminate|].
+  destruct (a_free a <? blen b + size_tuple); [discriminate|].
+  cbn [fst snd]. intros H. inversion H as [Hi]. clear H.
+  destruct (a_insert_at_slot_spec a i0) as [H1 H2]. cbv zeta in H1, H2.
+  split; [|split].
+  - apply a_get_after_set. exact H1.
+  - exact H2.
+  - intros Hav. rewrite Hav. reflexivity.
 Qed.
 
 Lemma a_slot_reuse : forall a b i, snd (astep a (PInsert b)) = OInserted i ->
